@@ -1082,7 +1082,7 @@ pub const SOUP: &[&str] = &[
     "1", "2.5", "$F", "'s'", "#9", "'''\n  m\n  '''",
     ";", ":", ":=", ",", ".", "..", "(", ")", "[", "]", "<", ">", "<=", ">=", "<>", "=", "+", "-", "*", "/", "^", "@", "&",
     "{c}", "// l\n", "{$ifdef X}", "{$else}", "{$endif}", "{$R+}", "(*c*)", "{$if A}", "{$elseif B}", "{$ifend}",
-    "'unterminated", "{ unterminated", "?", "\"",
+    "'unterminated", "{ unterminated", "?", "\"", "// x  ", "//y \t\n",
 ];
 
 /// spacing-relevant alphabet: one representative per token class that `token_spacing.rs` distinguishes
